@@ -68,7 +68,7 @@ impl From<Xyy> for Xyz {
         let x = (xyy.x * xyy._y) / xyy.y;
         let z = ((1.0 - xyy.x - xyy.y) * xyy._y) / xyy.y;
 
-        Xyz { x, y: xyy.y, z }
+        Xyz { x, y: xyy._y, z }
     }
 }
 
